@@ -109,8 +109,13 @@ def ledger_and_determinism(ctx, n, budget):
         try:
             if prev_case is not None:
                 prev_case[0].gf.simulate(key, prev_case[1])  # interleave another program
+            # both runs without taps: the tapped run above compiles different XLA programs
+            # (callbacks inside the fused computation), which may differ in the last ulp
             tr2 = case.gf.simulate(key, ra)
-            d = _trace_diff(node, tr, tr2, exact=True)
+            tr2b = case.gf.simulate(key, ra)
+            d = _trace_diff(node, tr2, tr2b, exact=True)
+            if d is None:
+                d = _trace_close(node, tr, tr2)
             ctx.count("determinism_checks")
             if d:
                 ctx.violation(f"C04|op=simulate|on={node.kind}|field=nondeterministic|cond=same-process", case=case.cid, detail=f"simulate twice with the same key and arguments differs: {d}", program=case.src)
@@ -147,6 +152,18 @@ def _reuse_cond(c1, c2):
     if len(a1) != len(a2):
         return "nested-call-vs-sibling"
     return "sibling-sites"
+
+
+def _trace_close(node, ta, tb):
+    """Tapped vs untapped run: same choices up to float32 rounding."""
+    ea = obs.valid_assignment(obs.extract(node, ta.get_choices()))
+    eb = obs.valid_assignment(obs.extract(node, tb.get_choices()))
+    if set(ea) != set(eb):
+        return f"address sets differ {sorted(set(ea) ^ set(eb), key=repr)[:3]}"
+    for p in ea:
+        if not np.allclose(np.asarray(ea[p], dtype=np.float64), np.asarray(eb[p], dtype=np.float64), rtol=1e-4, atol=1e-5):
+            return f"{p}: {ea[p]} vs {eb[p]}"
+    return None
 
 
 def _trace_diff(node, ta, tb, exact):
